@@ -6,6 +6,8 @@
 (* Property-level model.  A URL is a sequence of segments, "extends" is    *)
 (* the prefix order on sequences (the harness concatenates the segments,   *)
 (* so it is also the prefix order of the concrete strings).  Every region  *)
+(* (region 3, in session 2, is in the SAME simulator as region 1: same       *)
+(* circuit address, another seed)                                           *)
 (* owns a family of URLs  a < ax (prefix-related), b, c, tx and one-shot    *)
 (* URLs t (< tx) and at (> a); asset URL g is shared, rg region-specific.   *)
 (* Wrapper and proxy-only URLs are chosen by the proxy: they are symbols   *)
@@ -13,7 +15,7 @@
 (*                                                                         *)
 (* caps[r][n] is the list of live grants of name n in region r, newest     *)
 (* first.  Resolution of a request URL is by the LONGEST granted URL it    *)
-(* extends.  Ghost variables (lastG, firstP, treg, tres) record history so *)
+(* extends.  Ghost variables (hist, firstP, treg, tres) record history so  *)
 (* that the clauses of the property are invariants TLC checks.             *)
 (***************************************************************************)
 EXTENDS Naturals, Sequences, FiniteSets, TLC
@@ -23,11 +25,13 @@ CONSTANTS NR,        \* regions 1..NR; 1 and 2 belong to session 1, the others t
           MaxTemp,   \* live one-shot caps per region
           Grants,    \* which grant templates the simulators use (subset of 1..9)
           PO,        \* proxy-only cap names addons register (subset of {"ProxyP", "ProxyQ"})
-          Wants      \* which request lists the viewer uses (subset of 1..7)
+          Wants,     \* which request lists the viewer uses (subset of 1..7)
+          TN         \* names one-shot caps are registered under (subset of {"UpTemp", "CapB"}: a name of
+                     \* their own, or next to the grants of an ordinary cap)
 
 VARIABLES caps, pend, nseed,            \* state
-          lastG, firstP, treg, tres     \* ghosts (functions of the history)
-vars == <<caps, pend, nseed, lastG, firstP, treg, tres>>
+          hist, firstP, treg, tres      \* ghosts (functions of the history)
+vars == <<caps, pend, nseed, hist, firstP, treg, tres>>
 
 Regions == 1..NR
 SessOf(r) == IF r <= 2 THEN 1 ELSE 2
@@ -91,7 +95,11 @@ Acc(q) == AccOf(caps, q)
 Best(q) == BestIn(EntriesOf(caps), q)
 IsTempReq(q) == \E e \in Best(q) : e.t = "T"
 ByName(r, n) == IF caps[r][n] = <<>> THEN NoUrl ELSE Head(caps[r][n]).u
-Live(r, u) == Cardinality({i \in 1..Len(caps[r]["UpTemp"]) : caps[r]["UpTemp"][i].u = u})
+TempNames == {"UpTemp", "CapB"}
+LiveIn(r, n, u) == Cardinality({i \in 1..Len(caps[r][n]) : caps[r][n][i].u = u /\ caps[r][n][i].t = "T"})
+Live(r, u) == LiveIn(r, "UpTemp", u) + LiveIn(r, "CapB", u)
+LiveTemps(r) == Cardinality({<<n, i>> \in TempNames \X (1..8) : i <= Len(caps[r][n]) /\ caps[r][n][i].t = "T"})
+TempNameOf(r, u) == IF LiveIn(r, "CapB", u) > 0 THEN "CapB" ELSE "UpTemp"
 PONames(r) == {n \in Names : caps[r][n] # <<>> /\ Head(caps[r][n]).t = "P"}
 
 (***************************** actions *************************************)
@@ -100,7 +108,7 @@ Init == /\ caps = [r \in Regions |-> [n \in Names |->
                      IF n = "Seed" THEN <<[t |-> "N", u |-> SeedUrl(r)]>> ELSE <<>>]]
         /\ pend = [r \in Regions |-> NoPend]
         /\ nseed = 0
-        /\ lastG = [r \in Regions |-> [n \in Names |-> IF n = "Seed" THEN SeedUrl(r) ELSE NoUrl]]
+        /\ hist = [r \in Regions |-> [n \in Names |-> IF n = "Seed" THEN <<[u |-> SeedUrl(r), live |-> TRUE]>> ELSE <<>>]]
         /\ firstP = [r \in Regions |-> [n \in PONameSet |-> NoUrl]]
         /\ treg = [u \in UNION {TempUrls(r) : r \in Regions} |-> 0]
         /\ tres = [u \in UNION {TempUrls(r) : r \in Regions} |-> 0]
@@ -123,7 +131,7 @@ SeedReq(r, w) ==
     /\ w \in Wants /\ ~pend[r].on /\ nseed < MaxSeed
     /\ pend' = [pend EXCEPT ![r] = [on |-> TRUE, up |-> Upstream(r, w), need |-> Needed(r, w)]]
     /\ nseed' = nseed + 1
-    /\ UNCHANGED <<caps, lastG, firstP, treg, tres>>
+    /\ UNCHANGED <<caps, hist, firstP, treg, tres>>
 
 (* Environment assumptions on what simulators grant: only names that were asked for; a   *)
 (* URL belongs to one name (asset names may share one) and, g apart, to one region.      *)
@@ -151,17 +159,19 @@ SeedResp(r, i) ==
     /\ LET g == T(r, i) IN
          /\ GrantOK(r, g)
          /\ caps' = CapsAfterSeed(r, g)
-         /\ lastG' = [lastG EXCEPT ![r] = [n \in Names |->
+         /\ hist' = [hist EXCEPT ![r] = [n \in Names |->
                           IF CapsAfterSeed(r, g)[r][n] # caps[r][n]
-                          THEN Head(CapsAfterSeed(r, g)[r][n]).u ELSE lastG[r][n]]]
+                          THEN Append(hist[r][n], [u |-> Head(CapsAfterSeed(r, g)[r][n]).u, live |-> TRUE]) ELSE hist[r][n]]]
     /\ pend' = [pend EXCEPT ![r] = NoPend]
     /\ UNCHANGED <<nseed, firstP, treg, tres>>
 
-(* region.register_cap(.., TEMPORARY), e.g. an uploader URL *)
-RegisterTemp(r, u) ==
-    /\ u \in TempUrls(r) /\ Len(caps[r]["UpTemp"]) < MaxTemp
-    /\ caps' = [caps EXCEPT ![r]["UpTemp"] = <<[t |-> "T", u |-> u]>> \o @]
-    /\ lastG' = [lastG EXCEPT ![r]["UpTemp"] = u]
+(* region.register_cap(name, url, TEMPORARY), e.g. uploader URLs: several may be live under one name, *)
+(* also next to ordinary grants of that name; a URL is only ever used under one name                 *)
+RegisterTemp(r, u, n) ==
+    /\ u \in TempUrls(r) /\ n \in TN /\ LiveTemps(r) < MaxTemp /\ Len(caps[r][n]) < 6
+    /\ \A m \in TempNames \ {n} : LiveIn(r, m, u) = 0
+    /\ caps' = [caps EXCEPT ![r][n] = <<[t |-> "T", u |-> u]>> \o @]
+    /\ hist' = [hist EXCEPT ![r][n] = Append(@, [u |-> u, live |-> TRUE])]
     /\ treg' = [treg EXCEPT ![u] = @ + 1]
     /\ UNCHANGED <<pend, nseed, firstP, tres>>
 
@@ -170,9 +180,9 @@ OutRegisterProxy(r, n) == IF caps[r][n] # <<>> THEN Head(caps[r][n]).u ELSE Prox
 RegisterProxy(r, n) ==
     /\ n \in PO
     /\ IF caps[r][n] # <<>>
-       THEN UNCHANGED <<caps, lastG, firstP>>
+       THEN UNCHANGED <<caps, hist, firstP>>
        ELSE /\ caps' = [caps EXCEPT ![r][n] = <<[t |-> "P", u |-> ProxyUrl(r, n)]>>]
-            /\ lastG' = [lastG EXCEPT ![r][n] = ProxyUrl(r, n)]
+            /\ hist' = [hist EXCEPT ![r][n] = Append(@, [u |-> ProxyUrl(r, n), live |-> TRUE])]
             /\ firstP' = [firstP EXCEPT ![r][n] = ProxyUrl(r, n)]
     /\ UNCHANGED <<pend, nseed, treg, tres>>
 
@@ -180,6 +190,10 @@ RegisterProxy(r, n) ==
 RECURSIVE RemoveFirst(_, _)
 RemoveFirst(s, x) == IF s = <<>> THEN <<>>
                      ELSE IF Head(s) = x THEN Tail(s) ELSE <<Head(s)>> \o RemoveFirst(Tail(s), x)
+(* ghost: the most recent live registration of URL u is used up *)
+KillNewest(h, u) == LET ix == {i \in DOMAIN h : h[i].live /\ h[i].u = u}
+                        k == CHOOSE i \in ix : \A j \in ix : j <= i
+                    IN [h EXCEPT ![k].live = FALSE]
 TempReqs == UNION {{u, Ext(u)} : u \in UNION {TempUrls(r) : r \in Regions}}
 OutResolve(q) == Acc(q)
 ResolveTemp(q) ==
@@ -187,11 +201,12 @@ ResolveTemp(q) ==
     /\ LET e == CHOOSE e \in Best(q) : e.t = "T" IN
          /\ caps' = [caps EXCEPT ![e.r][e.n] = RemoveFirst(@, [t |-> "T", u |-> e.u])]
          /\ tres' = [tres EXCEPT ![e.u] = @ + 1]
-    /\ UNCHANGED <<pend, nseed, lastG, firstP, treg>>
+         /\ hist' = [hist EXCEPT ![e.r][e.n] = KillNewest(@, e.u)]
+    /\ UNCHANGED <<pend, nseed, firstP, treg>>
 
 Next == \/ \E r \in Regions : \/ \E w \in 1..7 : SeedReq(r, w)
                               \/ \E i \in 1..9 : SeedResp(r, i)
-                              \/ \E u \in TempUrls(r) : RegisterTemp(r, u)
+                              \/ \E u \in TempUrls(r) : \E n \in TempNames : RegisterTemp(r, u, n)
                               \/ \E n \in PONameSet : RegisterProxy(r, n)
         \/ \E q \in TempReqs : ResolveTemp(q)
 Spec == Init /\ [][Next]_vars
@@ -210,15 +225,18 @@ OnlyGranted ==
     LET E == EntriesOf(caps) IN
     \A r \in Regions : \A u \in {UrlA(r), UrlAx(r), UrlB(r), UrlC(r), UrlTx(r), AssetR(r), AssetG} \cup TempUrls(r) :
         (\A e \in E : ~IsPre(e.u, u)) => AccIn(E, u) = {None4} /\ AccIn(E, Ext(u)) = {None4}
-(* lookup by name yields the most recent grant (one-shot caps: see TempOnce) *)
-Newest == \A r \in Regions : \A n \in Names \ {"UpTemp"} : ByName(r, n) = lastG[r][n]
+(* lookup by name yields the most recently granted / registered URL that has not been used up:   *)
+(* judged against the registration history (hist), not against the list the model keeps         *)
+NewestSurvivor(h) == LET ix == {i \in DOMAIN h : h[i].live} IN
+                     IF ix = {} THEN NoUrl ELSE h[CHOOSE i \in ix : \A j \in ix : j <= i].u
+Newest == \A r \in Regions : \A n \in Names : ByName(r, n) = NewestSurvivor(hist[r][n])
 (* a one-shot cap resolves exactly once per registration: while it is live a request for / below its *)
 (* URL is attributed to it (also when the URL extends a granted cap's URL), afterwards never again   *)
 TempOnce ==
     LET E == EntriesOf(caps) IN
     \A r \in Regions : \A u \in TempUrls(r) :
         /\ tres[u] <= treg[u] /\ Live(r, u) + tres[u] = treg[u]
-        /\ \A q \in {u, Ext(u)} : IF Live(r, u) > 0 THEN AccIn(E, q) = {<<"UpTemp", "T", r, SessOf(r)>>}
+        /\ \A q \in {u, Ext(u)} : IF Live(r, u) > 0 THEN AccIn(E, q) = {<<TempNameOf(r, u), "T", r, SessOf(r)>>}
                                    ELSE \A a \in AccIn(E, q) : a[2] # "T"
 (* proxy-only caps never go upstream, everything else the viewer asked for does (in its order) *)
 SeedReqOK ==
@@ -260,6 +278,7 @@ Obs == [res    |-> ObsRes,
         \* one-shot caps are drained: k live registrations answer exactly k times, then the request is
         \* attributed to whatever is left (`after`: e.g. the granted cap whose URL the one-shot URL extends)
         temps  |-> LET E == EntriesOf(caps) IN
-                   {<<ru[1], ru[2], Live(ru[1], ru[2]), AccIn({e \in E : ~(e.t = "T" /\ e.u = ru[2])}, ru[2])>> :
+                   {<<ru[1], ru[2], Live(ru[1], ru[2]), AccIn({e \in E : ~(e.t = "T" /\ e.u = ru[2])}, ru[2]),
+                      <<TempNameOf(ru[1], ru[2]), "T", ru[1], SessOf(ru[1])>>>> :
                         ru \in {ru \in Regions \X UNION {TempUrls(r) : r \in Regions} : ru[2] \in TempUrls(ru[1])}}]
 =============================================================================
